@@ -88,6 +88,11 @@ func (d DataSpec) Bytes() []byte {
 		for i := range b {
 			b[i] = unit[i%p]
 		}
+	case "dicttail":
+		// the last n bytes of the text DataSpec{Class: "text", Seed, Len: Period}: a payload that
+		// repeats the END of a preset dictionary of that description
+		t := genText(r, maxInt(d.Period, n))
+		return append([]byte{}, t[len(t)-n:]...)
 	case "lowperiod":
 		// periodic like "period", but the unit is spelled with two or three byte values only
 		p := d.Period
